@@ -254,6 +254,9 @@ def quarantined(prog, env_):
                 sg = _sig(end)
                 if sg > 1 - 8 * u or sg < 0.5 + 8 * u:
                     tags.add('flt_div_edge')
+            lo, hi = sorted(abs(float(end)) for end in y)
+            if lo > 0 and math.ceil(math.log2(lo)) != math.ceil(math.log2(hi)):
+                tags.add('flt_div_edge')    # the divisor's interval contains a power of two (significand 1.0 / 0.5)
     return tags
 
 
